@@ -194,4 +194,26 @@ func init() {
 	mutant(&Mutant{Name: "c09-nullish-alternate-unwrapped-into-or", Property: "C09", File: "js/util.go",
 		Old: "&& (exprPrec(expr.Y) < js.OpAssign || binaryRightPrecMap[js.OrToken] <= exprPrec(expr.Y)) {", New: "&& exprPrec(expr.Y) != js.OpAssign {",
 		Rule: "R09.29", Construct: "expr.Y goes unwrapped into js.OrToken"})
+	mutant(&Mutant{Name: "c10-script-searched-for-every-comment-start", Property: "C10", File: "js/util.go",
+		Old: "isScriptMarkup(b[i+1:]) && i < lastScriptStart(b, &lastScript) {", New: "isScriptMarkup(b[i+1:]) && bytes.Contains(bytes.ToLower(b[i+4:]), []byte(\"<script\")) {",
+		Rule: "R10.21", Construct: "js.replaceEscapes/search from the cursor"})
+	mutant(&Mutant{Name: "c19-ext-mappings-resolved-in-map-order", Property: "C19", File: "cmd/minify/main.go",
+		Old: "\t\tmimetypes[ext] = filetype\n", New: "\t\tmimetypes[ext] = filetype\n\t\textMap[ext] = filetype\n",
+		Rule: "R19.26", Construct: "does not read what it writes"})
+	mutant(&Mutant{Name: "c01-empty-statement-removed-before-string", Property: "C01", File: "js/stmtlist.go",
+		Old: "\t\t\t\t\tif lit, ok := exprStmt.Value.(*js.LiteralExpr); ok && lit.TokenType == js.StringToken {\n\t\t\t\t\t\t// a string statement behind an empty statement is not a directive, at the start of the list it would be\n\t\t\t\t\t\texprStmt.Value = &js.GroupExpr{X: lit}\n\t\t\t\t\t}\n", New: "\t\t\t\t\t_ = exprStmt\n",
+		Rule: "R01.49", Construct: "(c) empty statements removed"})
+	mutant(&Mutant{Name: "c14-command-minifier-without-probe", Property: "C14", File: "minify.go",
+		Old: "\t\t_, err = w.Write(nil)\n", New: "\t\t_, _ = w.Write(nil)\n",
+		Rule: "R14.9", Construct: "the writer is probed before success is reported"})
+	mutant(&Mutant{Name: "c01-else-dissolved-behind-a-try", Property: "C01", File: "js/stmtlist.go",
+		Old: "\t\t\tif isFlowStmt(lastStmt(ifStmt.Body)) {", New: "\t\t\tif endsInJump(ifStmt.Body) {",
+		More: [][2]string{{"func optimizeStmtList(list []js.IStmt, blockType blockType) []js.IStmt {", "func endsInJump(stmt js.IStmt) bool {\n\tstmt = lastStmt(stmt)\n\tif tryStmt, ok := stmt.(*js.TryStmt); ok && tryStmt.Body != nil {\n\t\treturn endsInJump(tryStmt.Body)\n\t}\n\treturn isFlowStmt(stmt)\n}\n\nfunc optimizeStmtList(list []js.IStmt, blockType blockType) []js.IStmt {"}},
+		Rule: "R01.17", Construct: "else dissolved#1 only behind an unconditional jump"})
+	mutant(&Mutant{Name: "c04-axis-positions-share-the-position-case", Property: "C04", File: "css/css.go",
+		Old: "\tcase Background_Position:\n", New: "\tcase Background_Position, Background_Position_X, Background_Position_Y:\n",
+		Rule: "R04.31", Construct: "lists properties of one value shape"})
+	mutant(&Mutant{Name: "c13-base-url-written-into-the-registry", Property: "C13", File: "svg/svg.go",
+		Old: "\tp := NewPathData(o)\n", New: "\tif m != nil && m.URL != nil && o.Inline {\n\t\tu := *m.URL\n\t\tdefer func() { m.URL = &u }()\n\t\tm.URL = nil\n\t}\n\tp := NewPathData(o)\n",
+		Rule: "R13.10", Construct: "svg/no write into the registry"})
 }
